@@ -205,6 +205,8 @@ def plan(tier, seed):
             shards.append(("seq", shape, F, c, nchunk))
     shards.append(("catalogue",))
     shards.append(("bigframe",))
+    for c in range(8):
+        shards.append(("peaksearcher", c, 8, tier))
     for c in range(4):
         shards.append(("sched", c, 4, tier))
     k = seed % len(shards)
@@ -313,6 +315,54 @@ def _run_catalogue(desc):
     return sh
 
 
+class _Frame:
+    """what peaksearcher.peaksearch needs of a fabio image"""
+    def __init__(self, data, omega, k):
+        self.data = data
+        self.header = {"Omega": omega}
+        self.currentframe = k
+
+
+def _run_peaksearcher(desc):
+    """the driver's per-image routine (peaksearcher.peaksearch): several thresholds searched on the same picture, one labelimage object
+    per threshold; every 2x3 (thorough 3x3) sequence of 2 frames; each threshold's merged peaks are the components of the voxels above
+    THAT threshold"""
+    _, c, nch, tier = desc
+    from ImageD11 import labelimage, peaksearcher
+    import io, contextlib
+    sh = Shard()
+    shape = (2, 3) if tier == "quick" else (3, 3)
+    F = 2
+    n = shape[0] * shape[1]
+    nimg = 1 << n
+    imgs = [_bits_img(x, shape) for x in range(nimg)]
+    inten = make_inten(F, shape)
+    thresholds = [0.5, 2.0 ** (F * n // 2) + 0.5]
+    for q in range(c, nimg ** F, nch):
+        digs = [q % nimg, q // nimg]
+        frames = np.array([imgs[d] for d in digs])
+        omegas = np.array([10.0, 10.5])
+        sinks = {t: Sink() for t in thresholds}
+        labims = {t: labelimage.labelimage(shape, fileout=sinks[t], sptfile=Sink()) for t in thresholds}
+        with contextlib.redirect_stdout(io.StringIO()):
+            for f in range(F):
+                data = np.where(frames[f], inten[f], 0.0)
+                peaksearcher.peaksearch("frame%d" % f, _Frame(data, float(omegas[f]), f), None, thresholds, labims)
+            for t in thresholds:
+                labims[t].finalise()
+        for t in thresholds:
+            rows = [dict(zip(COLS, [float(x) for x in line.split()])) for line in sinks[t].lines[1:]]
+            vol = frames & (inten > t)
+            exp, multi = expected_peaks(vol, inten, omegas)
+            case = {"kind": "peaksearcher", "shape": list(shape), "frames": digs, "threshold": t, "thresholds": thresholds}
+            compare(sh, case, rows, exp)
+            sh.evaluations += 1
+            if t > 1 and vol.any() and (frames & ~vol).any():
+                sh.nontrivial += 1
+    sh.sample(case, limit=1)
+    return sh
+
+
 def _bigframes():
     """frames with more separate blobs than the labelling's initial bookkeeping holds (16384 slots): 16900 single-pixel blobs, then a
     frame that continues half of them and starts 4225 others, then an empty one"""
@@ -394,6 +444,8 @@ def run_shard(desc):
         return _run_seq(desc)
     if desc[0] == "bigframe":
         return _run_bigframe(desc)
+    if desc[0] == "peaksearcher":
+        return _run_peaksearcher(desc)
     if desc[0] == "sched":
         return _run_sched(desc)
     return _run_catalogue(desc)
@@ -412,6 +464,12 @@ def replay(case):
         rows = run_sequence(labelimage, frames, inten, omegas)
         compare(sh, case, rows, exp)
         return (not sh.violations), {"rows": rows, "expected": exp, "violations": sh.violations}
+    if case["kind"] == "peaksearcher":
+        nimg = 1 << (case["shape"][0] * case["shape"][1])
+        q = case["frames"][0] + nimg * case["frames"][1]
+        r = _run_peaksearcher(("peaksearcher", q, nimg ** 2, "quick" if case["shape"] == [2, 3] else "thorough"))
+        v = [x for x in r.violations if x["case"]["threshold"] == case["threshold"]]
+        return (not v), {"violations": v}
     if case["kind"] == "bigframe":
         r = _run_bigframe(("bigframe",))
         v = [x for x in r.violations if x["case"]["omega_step"] == case["omega_step"]]
